@@ -102,7 +102,7 @@ func genInput() *rapid.Generator[[]byte] {
 		var out []byte
 		n := rapid.IntRange(0, 10).Draw(t, "pieces")
 		for i := 0; i < n; i++ {
-			switch rapid.IntRange(0, 10).Draw(t, "kind") {
+			switch rapid.IntRange(0, 11).Draw(t, "kind") {
 			case 10: // backslash + one hex digit + one arbitrary byte, in either order
 				out = append(out, '\\')
 				h := "0123456789abcdefABCDEF"[rapid.IntRange(0, 21).Draw(t, "h1")]
@@ -111,6 +111,11 @@ func genInput() *rapid.Generator[[]byte] {
 					out = append(out, h, b)
 				} else {
 					out = append(out, b, h)
+				}
+			case 11: // dense run of characters that must be escaped (output up to 3x the input)
+				k := rapid.IntRange(1, 45).Draw(t, "dense")
+				for j := 0; j < k; j++ {
+					out = append(out, ten[rapid.IntRange(0, 9).Draw(t, "esc")])
 				}
 			case 0:
 				out = append(out, ten[rapid.IntRange(0, 8).Draw(t, "esc")])
@@ -465,6 +470,24 @@ func TestC16Sweep(t *testing.T) {
 					checkAll(t, in, sc)
 				}
 			}
+		}
+	}
+}
+
+// TestC16DenseSweep: inputs made (almost) only of characters that must be
+// escaped, every length up to 140 bytes with 0..3 plain bytes in front: the
+// output is three times the input, whatever internal buffer sizes are.
+func TestC16DenseSweep(t *testing.T) {
+	ev.Begin(t)
+	for n := 0; n <= 140; n++ {
+		for pre := 0; pre <= 3; pre++ {
+			in := []byte(strings.Repeat("a", pre))
+			for j := 0; j < n; j++ {
+				in = append(in, ten[(j+pre)%len(ten)])
+			}
+			ev.Case(n >= 2, fmt.Sprintf("%q", in), "dense-sweep")
+			checkAll(t, in, schedule{cuts: []int{len(in)}, caps: []int{4096}})
+			checkAll(t, in, schedule{cuts: byteCuts(len(in)), caps: []int{3}})
 		}
 	}
 }
